@@ -229,9 +229,23 @@ func registerExtlib(ex *Executor) {
 		}
 		return ex.alloc(st, t, "bytes.Reader", r), cNext
 	}
+	// (*bytes.Reader).Reset(b): the reader (possibly a zero-value struct field) now reads b from the start
+	I["(*bytes.Reader).Reset"] = func(ex *Executor, st *State, cc *CallCtx, args []Val) (Val, ctl) {
+		var r *ReaderV
+		switch x := args[1].(type) {
+		case BytesV:
+			r = &ReaderV{S: x.S, Nil: x.Nil, Off: smt.IntC(0), Src: x.Src, Ver: x.Ver}
+		case SliceV:
+			r = &ReaderV{S: ex.convert(st, x, nil, types.Typ[types.String]).(*smt.Term), Nil: smt.BoolC(x.Arr == nil), Off: smt.IntC(0)}
+		default:
+			ex.abort("bytes.Reader.Reset of %T", x)
+		}
+		ex.store(st, args[0].(Ptr), r)
+		return nil, cNext
+	}
 	// verifReaderRest(r) []byte : the unread part (whole content when nothing was consumed)
 	I["@verifReaderRest"] = func(ex *Executor, st *State, cc *CallCtx, args []Val) (Val, ctl) {
-		r := ex.load(st, args[0].(Ptr)).(*ReaderV)
+		r := ex.readerAt(st, args[0].(Ptr))
 		content := ex.bytesContent(st, BytesV{S: r.S, Nil: r.Nil, Src: r.Src, Ver: r.Ver})
 		if o, ok := r.Off.Int64(); ok && o == 0 {
 			return BytesV{S: content, Nil: smt.False}, cNext
@@ -239,12 +253,12 @@ func registerExtlib(ex *Executor) {
 		return BytesV{S: smt.App("suffix", smt.String, content, r.Off), Nil: smt.False}, cNext
 	}
 	I["@verifReaderLeft"] = func(ex *Executor, st *State, cc *CallCtx, args []Val) (Val, ctl) {
-		r := ex.load(st, args[0].(Ptr)).(*ReaderV)
+		r := ex.readerAt(st, args[0].(Ptr))
 		return smt.Sub(ex.strLen(st, r.S), r.Off), cNext
 	}
 	I["@verifReaderAdvance"] = func(ex *Executor, st *State, cc *CallCtx, args []Val) (Val, ctl) {
 		p := args[0].(Ptr)
-		r := ex.load(st, p).(*ReaderV)
+		r := ex.readerAt(st, p)
 		ex.store(st, p, &ReaderV{S: r.S, Nil: r.Nil, Off: smt.Add(r.Off, args[1].(*smt.Term)), Src: r.Src, Ver: r.Ver})
 		return nil, cNext
 	}
@@ -328,6 +342,14 @@ func (ex *Executor) bytesContent(st *State, b BytesV) *smt.Term {
 	}
 	st.note("read of a bytes.Buffer.Bytes() slice after the buffer was modified")
 	return st.fresh("stale_bytes", smt.String)
+}
+
+// readerAt: the bytes.Reader at p; a zero-value Reader (never Reset) reads nothing
+func (ex *Executor) readerAt(st *State, p Ptr) *ReaderV {
+	if r, ok := ex.load(st, p).(*ReaderV); ok {
+		return r
+	}
+	return &ReaderV{S: smt.StrC(""), Nil: smt.True, Off: smt.IntC(0)}
 }
 
 func registerPool(ex *Executor) {
